@@ -121,14 +121,22 @@ CLAIMS = {
         "Directory mtimes advance by 1 s per create/delete and chmod leaves them alone (real FS behaviour above its timestamp granularity); states on which the three references disagree are skipped and counted; alias table empty; READ_DIR_ONCE directories and Windows PATHEXT out of scope.",
         "DESIGN.md §3 C08",
     ),
+    "C19": (
+        "model_checking",
+        "explicit-state BFS over edit/touch/run/code-run/header-rewrite/read-only/delete histories of the real codecache entry points with an uncached-run oracle + exhaustive truncation/corruption and crash enumeration of cache entries",
+        "seqx+crashx",
+        "Breadth-first search (depth 4 quick / 6 thorough) over histories of the real run_script_with_cache / run_code_with_cache under all 16 cache-switch combinations, two namespaces and both code modes, with mtimes from a logical clock; every run is compared with an uncached run of the same source. Part 2 enumerates every truncation length of two cache entries, zero-filled tails, foreign-version headers, a directory / unreadable file in place of the entry, and every crash point, torn write and failing call of update_cache; part 3 replays a few histories through real `python -m xonsh` processes. Entry files are discovered by effect (no re-implementation of the naming).",
+        "mtime granularity <= 1 s; nothing required while mtime(source) <= mtime(cache); a rebuild of a damaged entry is demanded only when the documented switches enable the cache and the directory is writable; bit flips that still unmarshal are undetectable.",
+        "DESIGN.md §3 C19",
+    ),
 }
 
 NOT_YET = "check not built yet (work in progress in this round; see DESIGN.md §3 for the planned exploration)"
 
 ENGINES = [
-    {"name": "crashx", "path": "xv/crashx.py", "serves_properties": ["C13"], "kind_free_text": "records the file-operation log of a write history through shims bound into the module under test, then enumerates every crash point, torn write and failing call in forked children; strace syscall injection for libsqlite3"},
+    {"name": "crashx", "path": "xv/crashx.py", "serves_properties": ["C13", "C19"], "kind_free_text": "records the file-operation log of a write history through shims bound into the module under test, then enumerates every crash point, torn write and failing call in forked children; strace syscall injection for libsqlite3"},
     {"name": "pysched", "path": "xv/pysched.py", "serves_properties": ["C06", "C11", "C12"], "kind_free_text": "stateless preemption-bounded exploration of real CPython threads: baton scheduler, line-event scheduling points in named functions, cooperative Lock/Condition/sleep/join shims, DFS over choice prefixes with replay-divergence detection"},
-    {"name": "seqx", "path": "xv/seqx.py", "serves_properties": ["C08", "C10", "C11", "C12", "C16", "C20"], "kind_free_text": "explicit-state breadth-first search whose transitions call the real entry points on a freshly replayed implementation; canonical state hashing; lock-step reference"},
+    {"name": "seqx", "path": "xv/seqx.py", "serves_properties": ["C08", "C10", "C11", "C12", "C16", "C19", "C20"], "kind_free_text": "explicit-state breadth-first search whose transitions call the real entry points on a freshly replayed implementation; canonical state hashing; lock-step reference"},
     {"name": "gramx", "path": "xv/", "serves_properties": ["C04", "C05", "C07", "C14", "C15", "C17"], "kind_free_text": "bounded-exhaustive enumeration of structured inputs run through the real implementation, compared with a reference"},
 ]
 
